@@ -191,33 +191,34 @@ def compatItems : List (String × String) :=
   [("int", "float"), ("int", "complex"), ("float", "complex"), ("bytearray", "bytes"),
    ("memoryview", "bytes")]
 
-section SetTypeList
-variable {α : Type} [DecidableEq α]
-
-/-- order-preserving de-duplication, first occurrence kept (`dict.fromkeys`) -/
-def dedupL : List α → List α
-  | [] => []
-  | x :: xs => x :: (dedupL xs).filter (· ≠ x)
-
 /-- the members deleted by
 `for compat, name in items: if compat in type_list and name in type_list: del type_list[compat]`
-(sequential: a member already deleted is no longer "in"); `d` = deleted so far, `nm x` = the member that
-is the plain name `x` -/
-def compatDropL (nm : String → α) (xs : List α) : List (String × String) → List α → List α
+(sequential: a member already deleted is no longer "in"); `d` = deleted so far -/
+def compatDrop (es : List PyExpr) : List (String × String) → List PyExpr → List PyExpr
   | [], d => d
   | (c, n) :: rest, d =>
-    let has := fun (x : String) => xs.contains (nm x) && !d.contains (nm x)
-    compatDropL nm xs rest (if has c && has n then nm c :: d else d)
+    let has := fun (x : String) => es.contains (.name x) && !d.contains (.name x)
+    compatDrop es rest (if has c && has n then .name c :: d else d)
+
+section SetTypeList
+variable {α : Type}
+
+/-- order-preserving de-duplication by printed form, first occurrence kept (`dict.fromkeys` on the
+printed members) -/
+def dedupK (key : α → PyExpr) : List α → List α
+  | [] => []
+  | x :: xs => x :: (dedupK key xs).filter (fun y => key y ≠ key x)
 
 /-- `_FormSetTypeList`: de-duplicate, and inside a parameter drop the pep484 compat members.
-Generic in the member type: the printer applies it to printed members, `norm` to normalised types. -/
-def formSetL (nm : String → α) (inParam : Bool) (xs : List α) : List α :=
-  let xs := dedupL xs
-  if inParam then xs.filter (fun e => !(compatDropL nm xs compatItems []).contains e) else xs
+Generic in what carries the printed member `key a`: the printer applies it to the printed members
+themselves, `norm` to normalised types (a member is identified by how it prints). -/
+def formSetK (key : α → PyExpr) (inParam : Bool) (xs : List α) : List α :=
+  let xs := dedupK key xs
+  if inParam then xs.filter (fun a => !(compatDrop (xs.map key) compatItems []).contains (key a)) else xs
 
 end SetTypeList
 
-def formSetTypeList (inParam : Bool) (es : List PyExpr) : List PyExpr := formSetL PyExpr.name inParam es
+def formSetTypeList (inParam : Bool) (es : List PyExpr) : List PyExpr := formSetK id inParam es
 
 /-- `re.fullmatch(r"Literal\[(?P<content>.*)\]", t)`: the printed member is `Literal[…]` -/
 def litArgs : PyExpr → Option (List PyExpr)
